@@ -162,33 +162,159 @@ def _clean(name):
     return out or None
 
 
+# ---- what the unchanged code puts on disk: go-containerregistry's mutate.Extract (v0.19.1, mutate.go: extract, inWhiteoutDir) followed by
+# unpack.unpack (three passes), for images of regular files, directories and whiteouts.  Written from those two functions, Go's
+# filepath.Clean / Dir / Base / Join included; used ONLY to decide whether a difference between the squashed unpacking and the final
+# view is the recorded finding C04/squash-absolute-names (and nothing else) — never to excuse a difference on its own.
+
+def _go_clean(p):
+    if p == '':
+        return '.'
+    rooted = p.startswith('/')
+    out = []
+    for c in p.split('/'):
+        if c in ('', '.'):
+            continue
+        if c == '..':
+            if out and out[-1] != '..':
+                out.pop()
+            elif not rooted:
+                out.append('..')
+            continue
+        out.append(c)
+    body = '/'.join(out)
+    return '/' + body if rooted else (body or '.')
+
+
+def _go_dir(p):
+    i = p.rfind('/')
+    return _go_clean(p[:i + 1])
+
+
+def _go_base(p):
+    if p == '':
+        return '.'
+    q = p.rstrip('/')
+    if q == '':
+        return '/'
+    return q[q.rfind('/') + 1:]
+
+
+def _go_join(*parts):
+    parts = [x for x in parts if x != '']
+    return _go_clean('/'.join(parts)) if parts else ''
+
+
+def _extract_model(layers):
+    """mutate.Extract: the flattened archive [(kind 'd'|'f', cleaned name, content)], newest layer first"""
+    file_map, out = {}, []
+
+    def in_whiteout_dir(f):
+        while f != '':
+            d = _go_dir(f)
+            if f == d:
+                break
+            if file_map.get(d):
+                return True
+            f = d
+        return False
+    for layer in reversed(layers):
+        for typ, raw, size, cid in layer:
+            if typ == 'f' and raw.endswith('/'):
+                typ = 'd'                       # archive/tar: a regular-file header whose name ends in "/" is a directory
+            name = _go_clean(raw)
+            base, dirname = _go_base(name), _go_dir(name)
+            tomb = base.startswith('.wh.')
+            if tomb:
+                base = base[4:]
+            key = name if typ == 'd' else _go_join(dirname, base)
+            if key in file_map or in_whiteout_dir(key):
+                continue
+            file_map[key] = tomb or typ != 'd'
+            if not tomb:
+                out.append((typ, name, 'e' if size == 0 else 'c%dn%d' % (cid % 26, size)))
+    return out
+
+
+def _unpack_model(entries):
+    """unpack.unpack on the flattened archive, three passes, require-all, no links: {relative path: 'd' | content}, or None when
+    it returns an error (a file where a directory is needed)"""
+    disk = {}
+    for _ in range(3):
+        for typ, name, content in entries:
+            clean = _go_clean(name)
+            if clean == '..' or clean.startswith('../'):
+                continue                        # isWithinDirectory(dir, Join(dir, cleanPath)) fails
+            rel = tuple(c for c in clean.split('/') if c not in ('', '.'))
+            if not rel or rel in disk:
+                continue                        # dir itself / already unpacked (Lstat)
+            blocked = False
+            for k in range(1, len(rel)):        # mkdirAllInside(dir, parent)
+                cur = disk.get(rel[:k])
+                if cur is None:
+                    disk[rel[:k]] = 'd'
+                elif cur != 'd':
+                    blocked = True
+                    break
+            if blocked:
+                if typ == 'f':
+                    return None                 # "failed to create directory": unpack returns the error
+                continue                        # directory entry: logged, skipped
+            disk[rel] = 'd' if typ == 'd' else content
+    return disk
+
+
+def _squash_model(layers):
+    disk = _unpack_model(_extract_model(layers))
+    if disk is None:
+        return None
+    return sorted(binascii.hexlify('/'.join(k).encode('latin1')).decode() + ':' + v for k, v in disk.items() if v != 'd')
+
+
 def _squash_verdict(case, fi, wf):
     """the squashed on-disk unpacking (unpack.UnpackSquashed of the same image) holds the regular files of the final view,
     with the same content — judged where H holds for the final view and the image has no links (the unpacker writes
-    through links and drops dangling ones; C06/C17 territory) and no fifo"""
+    through links and drops dangling ones; C06/C17 territory) and no fifo.
+    Known finding C04/squash-absolute-names: mutate.Extract matches entries across layers by filepath.Clean(name), which keeps a
+    leading "/": `/p` and `p` are different names to it.  Its class: the image spells some entry names with a leading "/" and others
+    without, AND the files on disk are exactly what Extract + unpack of the unchanged code produce (_squash_model).  An image whose
+    names are all rooted, or all unrooted (plain, ./, //-inside, x/../ spellings are one name to Extract), is judged against the final
+    view with no excuse."""
     sq = fi.get('squash')
-    if sq in (None, 'na', 'err') or not wf or wf[-1] != '1':
+    if sq in (None, 'na') or not wf or wf[-1] != '1':
         STATS['squash not judged: ' + ('not unpacked (requirer set or size limit below 2^20)' if sq in (None, 'na') else
-                                       'UnpackSquashed failed' if sq == 'err' else 'H fails for the final view')] += 1
+                                       'H fails for the final view')] += 1
         return None, None
     t = case.split(' ')
     layers = [[e.split(':') for e in (l.split(';') if l not in ('-', '') else [])] for l in t[5].split('|')]
     if any(e[0] in 'sho' for l in layers for e in l):
         STATS['squash not judged: image has a symlink, hard link or fifo entry'] += 1
         return None, None              # links, and entry types outside the property's quantifier (mutate.Extract treats a fifo as a file)
+    names = [[(e[0], binascii.unhexlify(e[1]).decode('latin1') if e[1] != '-' else '') for e in l] for l in layers]
+    model = _squash_model([[(e[0], n, int(e[3]), int(e[4])) for e, (_, n) in zip(l, nl)] for l, nl in zip(layers, names)])
+    rooted = [n.startswith('/') for l in names for _, n in l]
+    mixed = any(rooted) and not all(rooted)
+    spelling = 'mixed (some names with a leading "/", some without)' if mixed else ('all names rooted' if rooted and all(rooted) else 'no name rooted')
     last = fi['walk'].split('|')[-1]
     view = sorted(x.split(':')[0] + ':' + x.split(':')[-1] for x in _items(last) if x.split(':')[1] == 'f')
+    if sq == 'err':
+        # UnpackSquashed returned an error: the recorded behaviour only where the model of the unchanged code says so (a file where a
+        # directory is needed in the flattened archive, which needs the two spellings of one path)
+        if model is None and mixed:
+            STATS['squash judged: UnpackSquashed fails as the recorded finding predicts (mixed spellings)'] += 1
+            return ('UnpackSquashed fails on an image whose final view is well-formed (entry names written with and without a leading "/": the '
+                    'flattened archive holds a file and entries beneath it)'), 'C04/squash-absolute-names'
+        STATS['squash judged'] += 1
+        return 'UnpackSquashed returned an error on an image whose final view satisfies H (%s)' % spelling, None
     got = _items(sq)
     STATS['squash judged'] += 1
+    STATS['squash judged: ' + spelling] += 1
     if view:
         STATS['squash judged, final view has a regular file'] += 1
     if view == got:
         return None, None
     d = sorted(set(view) ^ set(got))
     text = 'the squashed unpacking differs from the final view in regular files: ' + ','.join(d[:4])
-    names = [[(e[0], binascii.unhexlify(e[1]).decode('latin1') if e[1] != '-' else '') for e in l] for l in layers]
-    if any(n.startswith('/') for l in names for _, n in l):
-        return text + ' (entry names written with a leading "/")', 'C04/squash-absolute-names'
     odd = False
     for l in names:
         for typ, n in l:
@@ -197,10 +323,21 @@ def _squash_verdict(case, fi, wf):
                 odd = True             # "", ".", "..", "../x": skipped by the loader, "." is a tombstone of everything for mutate.Extract
             elif c[-1] in ('.wh.', '.wh..', '.wh...') or (typ == 'd' and c[-1].startswith('.wh.')):
                 odd = True
+    if mixed and not odd:
+        if model == got:
+            STATS['squash judged, differs: exactly the recorded C04/squash-absolute-names behaviour'] += 1
+            return text + ' (entry names written with and without a leading "/"; the files on disk are what mutate.Extract + unpack of the ' \
+                          'recorded code produce)', 'C04/squash-absolute-names'
+        return (text + ' — and it is not the recorded C04/squash-absolute-names behaviour either: mutate.Extract + unpack of the recorded code '
+                'leave %s' % (','.join(sorted(set(model or []) ^ set(got))[:4]) if model is not None else 'an error')), None
     if odd:
-        STATS['squash judged, differs, skipped: whiteout of "", "." or "..", or a directory named .wh.x'] += 1
-        return None, None              # whiteouts of "", "." or "..", directories named .wh.x: no claim
-    return text, None
+        if model == got:
+            STATS['squash judged, differs, skipped: whiteout of "", "." or "..", or a directory named .wh.x (on-disk result as the recorded code)'] += 1
+            return None, None          # whiteouts of "", "." or "..", directories named .wh.x: no claim
+        return (text + ' — the image has a whiteout of "", "." or ".." or a directory named .wh.x (no claim about the view), but the files on disk '
+                'are not what mutate.Extract + unpack of the recorded code leave either: %s' % (
+                    ','.join(sorted(set(model or []) ^ set(got))[:4]) if model is not None else 'an error')), None
+    return text + ' (%s)' % spelling, None
 
 
 def _parallel_driver(ctx, exe, cases, timeout=3600, procs=12):
